@@ -356,12 +356,25 @@ def check_sections(fx, rep, rule, wv, seqs):
             t = strip_cast(h.get(fld_, ("?",)))
             good = t == veclen(vec_)         # alternative: the length of exactly the vector that is emitted
             if not good and t[0] == "call" and "Iterator::sum::<" in t[1] and t[2][0][0] == "call" and t[2][0][1].endswith("Iterator::map"):
-                src, clo = t[2][0][2]
-                if src[0] == "call" and src[1].endswith(("BTreeMap::values", "BTreeMap::into_values")) and src[2][0] == cm and clo[0] == "closure":
+                # sum(values(classes).map(f)[.map(g)..]): the composed projection must be class.<section>_len
+                src, clos_ = t[2][0], []
+                while src[0] == "call" and src[1].endswith("Iterator::map") and len(src[2]) == 2 and src[2][1][0] == "closure":
+                    clos_.insert(0, src[2][1])
+                    src = src[2][0]
+                while src[0] == "call" and src[1].endswith(("Clone::clone", "Iterator::by_ref")) and len(src[2]) == 1:
+                    src = src[2][0]
+                if src[0] == "call" and src[1].endswith(("BTreeMap::values", "BTreeMap::into_values")) and src[2][0] == cm and clos_:
                     sy2 = S.Sym(fx)
                     try:
-                        r2 = sy2.apply(clo, [("bound", 0)], S.St(), {"sp": "?"})
-                        good = len(r2) == 1 and r2[0][1][1] == mk_field(mk_field(("bound", 0), "class"), lenf)
+                        val_ = ("bound", 0)
+                        ok_chain = True
+                        for clo in clos_:
+                            r2 = sy2.apply(clo, [val_], S.St(), {"sp": "?"})
+                            if len(r2) != 1 or r2[0][0].conds or r2[0][0].effects:
+                                ok_chain = False
+                                break
+                            val_ = r2[0][1][1]
+                        good = ok_chain and val_ == mk_field(mk_field(("bound", 0), "class"), lenf)
                     except S.Undecidable:
                         good = False
             rep.check(rule, "%s/counts/%s" % (rule, fld_), good, loc=F.short_file(rl.body["sp"]), found="%s = %s" % (fld_, S.tstr(t)),
